@@ -372,7 +372,8 @@ func New(options Options) *Interpreter {
 
 	i.opt.context.GOPATH = options.GoPath
 	if len(options.BuildTags) > 0 {
-		i.opt.context.BuildTags = options.BuildTags
+		// Do not share the tags with the caller: tags are added by yaegi:tags comments.
+		i.opt.context.BuildTags = append([]string{}, options.BuildTags...)
 	}
 
 	// astDot activates AST graph display for the interpreter
